@@ -12,25 +12,82 @@ CONTRACTS = [
         "hexital.utils.indexing.absindex",
         types={"index": "int|None", "length": "int"},
         requires={"length-nonneg": "length >= 0"},
-        ensures={
-            "none-default": "implies(index is None, result == length - 1)",
-            "in-range": "implies(index is not None and -length <= index < length,"
-                        " result == (index if index >= 0 else length + index))",
-            "out-of-range": "implies(index is not None and not (-length <= index < length), result is None)",
-        },
-        result_type="int|None",
+        # note absindex(None, 0) == -1: callers must not pass an empty list with index None
+        returns="length - 1 if index is None else"
+                " ((index if index >= 0 else length + index) if -length <= index < length else None)",
         props=["C16", "C20", "C14"],
     ),
     Contract(
         "hexital.utils.indexing.validate_index",
         types={"index": "int|None", "length": "int", "default": "int"},
         requires={"length-nonneg": "length >= 0"},
-        ensures={
-            "valid": "implies(-length <= (default if index is None else index) < length,"
-                     " result == (default if index is None else index))",
-            "invalid": "implies(not (-length <= (default if index is None else index) < length), result is None)",
-        },
-        result_type="int|None",
+        # un-normalised: a valid negative index is returned as it is
+        lets={"ix": "default if index is None else index"},
+        returns="ix if -length <= ix < length else None",
         props=["C16"],
+    ),
+]
+
+
+def _own_read_candle(ex, st, env, node):
+    from hexvc.series import CandleAt
+    c = env["candle"]
+    if isinstance(c, CandleAt):
+        ex.note_series_read(st, st.heap[c.series.oid], c.j, env["name"], node)
+
+
+def _own_read_index(namevar):
+    def eff(ex, st, env, node):
+        from hexvc.series import SeriesP
+        from hexvc.values import Ref
+        ser = env["candles"]
+        idx = env.get("idx", env.get("index"))
+        if isinstance(ser, Ref) and isinstance(st.heap[ser.oid], SeriesP) and idx is not None:
+            p = st.heap[ser.oid]
+            ex.note_series_read(st, p, p.norm(idx), env[namevar], node)
+    return eff
+
+
+CONTRACTS += [
+    Contract(
+        "hexital.utils.candles.reading_by_candle",
+        types={"candle": "candle", "name": "name"},
+        returns="RdC(candle, name)",
+        native_effect=_own_read_candle,
+        props=["C20", "C13"],
+    ),
+    Contract(
+        "hexital.utils.candles.reading_by_index",
+        types={"candles": "series", "name": "name", "index": "int"},
+        returns="RdI(candles, index, name)",
+        reads=[("candles", "norm(index, Len(candles))", "norm(index, Len(candles))", "valid(index, Len(candles))")],
+        native_effect=_own_read_index("name"),
+        props=["C20", "C16"],
+    ),
+    Contract(
+        "hexital.utils.candles.reading_period",
+        types={"candles": "series", "period": "int", "name": "name", "index": "int|None"},
+        lets={"p1": "period - 1", "idx": "Len(candles) - 1 if index is None else index"},
+        requires={"period-positive": "period >= 1"},
+        returns="(index is None or valid(index, Len(candles))) and idx - p1 >= 0"
+                " and RdI(candles, idx - p1, name) is not None"
+                " and RdI(candles, idx - Int(p1 / 2), name) is not None"
+                " and RdI(candles, idx, name) is not None",
+        reads=[("candles", "idx - p1", "idx", "(index is None or valid(index, Len(candles))) and idx - p1 >= 0 and idx >= 0")],
+        native_effect=_own_read_index("name"),
+        props=["C04", "C20"],
+    ),
+    Contract(
+        "hexital.utils.candles.candles_sum",
+        types={"candles": "series", "indicator": "name", "length": "int", "index": "int"},
+        requires={
+            "index-in-range": "0 <= index < Len(candles)",
+            "window-inside": "1 <= length <= index + 1",
+            "numeric-or-missing": "forall(index + 1 - length, index + 1, lambda j:"
+                                  " isnone(Rd(candles, j, indicator)) or isnum(Rd(candles, j, indicator)))",
+        },
+        returns="None if index == 0 else Sigma(index + 1 - length, index + 1, lambda j: num0(Rd(candles, j, indicator)))",
+        reads=[("candles", "index + 1 - length", "index", "index > 0")],
+        props=["C04", "C05"],
     ),
 ]
